@@ -590,10 +590,11 @@ def gen_pp(op, tier, rng, isas=("sse2", "avx2")):
         for x in needles:
             n = len(x)
             idxs = list(range(min(n, 6))) + [n - 1, n // 2] + ([254, 255] if n > 255 else [])
+            idxs = [i for i in idxs if i <= 255]          # Pair offsets are u8
             pairs = [(i1, i2) for i1 in sorted(set(idxs)) for i2 in sorted(set(idxs)) if i1 != i2 and i1 < n and i2 < n]
             if quick and len(pairs) > 6:
                 pairs = [pairs[(k + j * 3) % len(pairs)] for j in range(6)]
-            pairs += [(0, 0), (n, 0), (0, n)][: (1 if quick else 3)]      # invalid pairs
+            pairs += [(0, 0), (min(n, 255), 0), (0, min(n, 255))][: (1 if quick else 3)]      # invalid pairs (out of range when n <= 255)
             for (i1, i2) in pairs:
                 mins = max(n, max(min(i1, 255), min(i2, 255)) + 16)          # sse2 minimum
                 lens = sorted(set([mins - 1, mins, mins + 1, mins + 15, mins + 16, mins + 17, mins + 31, mins + 32,
